@@ -170,6 +170,9 @@ def generate(repo):
     # 6. ObjectFactory.convert on canonical secrets
     A = enums.CryptographicAlgorithm
     of = pfactory.ObjectFactory()
+    defects = _probe_defects()
+    # exception classes of the conversion that _process_register answers with a KmipError (repo commit 546e738)
+    caught = (TypeError, ValueError) if dict(defects).get('register-convert') is False else ()
 
     def wrapdata(shape):
         if shape == 0:
@@ -201,11 +204,11 @@ def generate(repo):
             return 'None'
         except kexc.KmipError:
             raise ValueError('ObjectFactory.convert raised a KmipError; the C13 model must be extended')
-        except ValueError as e:
-            if 'convert returned' in str(e):
-                raise
-            return 'Some "%s"' % _site(e)
         except Exception as e:
+            if isinstance(e, ValueError) and 'convert returned' in str(e):
+                raise
+            if isinstance(e, caught):
+                return 'Some "kmip"'
             return 'Some "%s"' % _site(e)
 
     rows = []
@@ -218,6 +221,25 @@ def generate(repo):
     out.append('(* ((object type, key format type, length consistent, wrapping-data shape), None = converted | Some site) ;')
     out.append('   shapes: 0 none, 1 empty, 2 encryption key info with parameters, 3 without, 4 MAC/signature key info with, 5 without *)')
     out.append('Definition convert_key_table : list ((Z * Z * bool * Z) * option string) := [\n  ' + ';\n  '.join(rows) + '\n].')
+    out.append('')
+
+    def missing_secret(t, missing):
+        kft = enums.KeyFormatType.RAW if t in (enums.ObjectType.SYMMETRIC_KEY, enums.ObjectType.SPLIT_KEY) else enums.KeyFormatType.PKCS_1
+        s = key_secret(t, kft, True, 0)
+        if missing in (1, 3):
+            s.key_block.cryptographic_algorithm = None
+        if missing in (2, 3):
+            s.key_block.cryptographic_length = None
+        if missing == 4:
+            s.key_block.key_value = None
+        return s
+    rows = []
+    for t in (enums.ObjectType.SYMMETRIC_KEY, enums.ObjectType.PUBLIC_KEY, enums.ObjectType.PRIVATE_KEY, enums.ObjectType.SPLIT_KEY):
+        for missing in (1, 2, 3, 4):
+            o = outcome(lambda: of.convert(missing_secret(t, missing)))
+            rows.append('((%d, %d), %s)' % (t.value, missing, o))
+    out.append('(* ((object type, optional Key Block part left out: 1 algorithm, 2 length, 3 both, 4 key value), outcome) *)')
+    out.append('Definition convert_missing_table : list ((Z * Z) * option string) := [\n  ' + ';\n  '.join(rows) + '\n].')
     out.append('')
     rows = []
     for ct in enums.CertificateType:
@@ -252,7 +274,7 @@ def generate(repo):
     out.append('(* which unguarded uses the handlers still contain: each was probed with a canonical witness request against a')
     out.append('   scratch KmipEngine; true = the witness still answers GENERAL_FAILURE at the recorded site *)')
     out.append('Definition defect_present : list (string * bool) := [%s].' % ';\n  '.join(
-        '("%s", %s)' % (n, 'true' if b else 'false') for n, b in _probe_defects()))
+        '("%s", %s)' % (n, 'true' if b else 'false') for n, b in defects))
     out.append('')
     return {'PieClasses.v': '\n'.join(out) + '\n'}
 
@@ -292,6 +314,8 @@ def _probe_defects():
          'pie/factory.py:_build_pie_certificate:TypeError'),
         ('get-attributes-empty-response', (2, 0), 'SYMMETRIC_KEY', {'op': 'GetAttributes', 'names': ['Certificate Type']},
          'core/messages/payloads/get_attributes.py:write:InvalidField'),
+        ('register-bigint-overflow', (1, 2), None, {'op': 'Register', 'otype': 'SPLIT_KEY', 'secret': {'type': 'SPLIT_KEY', 'pfs': 2 ** 63}, 'ta': c13.tmpl()},
+         ENG + '_process_register:OverflowError'),
         # not an internal-error site: does MAC accept an (active, MAC-capable) certificate as its key?  site None = "reaches the crypto engine"
         ('mac-accepts-any-type', (1, 2), 'CERTIFICATE', {'op': 'MAC', 'params': {'cryptographic_algorithm': E.CryptographicAlgorithm.HMAC_SHA256}, 'data': b'd'},
          None),
